@@ -1160,7 +1160,17 @@ class DispatchWrapper(VC):
         super().__init__(PROP, f"C09.dispatch.wrapper[need_eval_context={need_eval_context},args={nargs}]")
 
     def closure(self, I):
-        node, module = extract.nested_function_ast("jinja2.async_utils:async_variant", "wrapper")
+        # the code object of a LIVE wrapper (whatever the nested function is called and wherever it is written)
+        try:
+            node, module = extract.function_ast(F.FILTERS["first"])
+        except LookupError:
+            try:
+                node, module = extract.nested_function_ast("jinja2.async_utils:async_variant", "wrapper")
+            except LookupError as ex:
+                raise Unsupported(f"cannot locate the wrapper async_variant builds: {ex}")
+        free = set(F.FILTERS["first"].__code__.co_freevars)
+        if not {"is_async", "need_eval_context", "async_func", "normal_func"} <= free:
+            raise Unsupported(f"the wrapper's free variables are {sorted(free)}: the dispatch contract is stated over is_async / need_eval_context / async_func / normal_func")
         return Closure(node, module, [], "async_variant.<locals>.decorator.<locals>.wrapper")
 
     def setup(self, I, st):
@@ -1201,27 +1211,36 @@ class DispatchWrapper(VC):
         return native_dispatch(w)
 
 
+def live_selectors(kind):
+    """the `is_async` selector functions the decorator bound for the registered variants whose sync function takes the environment
+    (kind 0) / a context, an eval context or nothing (kind 1) - wherever they are defined (nested closures or module-level helpers)"""
+    out = {}
+    for name in VARIANT_NAMES:
+        w = F.FILTERS[name]
+        cells = {n: c.cell_contents for n, c in zip(w.__code__.co_freevars, w.__closure__ or ())}
+        sel, normal = cells.get("is_async"), cells.get("normal_func")
+        if sel is None or normal is None:
+            continue
+        is_env = _PassArg.from_obj(normal) is _PassArg.environment
+        if (kind == 0) == is_env:
+            out.setdefault(sel.__code__, (sel, name))
+    return list(out.values())
+
+
 class IsAsyncSelector(VC):
-    """the two selectors defined by async_variant.decorator: args[0].is_async (environment filters) / args[0].environment.is_async"""
+    """the selector a registered variant was given reads args[0].is_async when the sync function takes the environment, otherwise
+    args[0].environment.is_async (the selector is taken from the LIVE wrapper, so it is found wherever the decorator defines it)"""
     prop = PROP
     target = "jinja2.async_utils:async_variant"
 
-    def __init__(self, which):
-        self.which = which  # 0: environment variant, 1: context / eval-context variant
-        super().__init__(PROP, f"C09.dispatch.is_async[{'environment' if which == 0 else 'context'}]")
+    def __init__(self, which, sel=None, example=None, idx=0):
+        self.which, self.sel, self.example = which, sel, example
+        super().__init__(PROP, f"C09.dispatch.is_async[{'environment' if which == 0 else 'context'}]" + (f"[{idx}]" if idx else ""))
 
     def closure(self, I):
-        fn = extract.resolve("jinja2.async_utils:async_variant")
-        node, module = extract.function_ast(fn)
-        defs = [n for n in ast.walk(node) if isinstance(n, ast.FunctionDef) and n.name == "is_async"]
-        if len(defs) != 2:
-            raise CheckerError(f"expected two is_async selectors, found {len(defs)}")
-        # which one is chosen for which pass_arg is checked by C09.dispatch.registry on the live wrappers
-        self.cond_src = None
-        for n in ast.walk(node):
-            if isinstance(n, ast.If) and defs[0] in n.body:
-                self.cond_src = ast.unparse(n.test)
-        return Closure(defs[self.which], module, [], "async_variant.<locals>.decorator.<locals>.is_async")
+        if self.sel is None:
+            raise Unsupported(f"no registered async variant of this kind exposes an is_async selector (closure cell `is_async` not found)")
+        return I.closure_of_function(self.sel)
 
     def configure(self, I):
         import typing
@@ -1231,21 +1250,33 @@ class IsAsyncSelector(VC):
         self.flag = sym("the_flag", "bool")
         env = A.obj(st, jinja2.Environment, "env", fields={"is_async": self.flag})
         first = env if self.which == 0 else A.obj(st, R.Context, "ctx", fields={"environment": env})
-        return "locals", {"args": (first, sym("other", "obj"))}
+        return [(first, sym("other", "obj"))], {}
 
     def p_flag(self, pre, out):
         if out.raised:
             return False
-        cond_ok = self.cond_src == "pass_arg is _PassArg.environment"
-        return z3.BoolVal(cond_ok and isinstance(out.value, Sym)) if not isinstance(out.value, Sym) else z3.And(z3.BoolVal(cond_ok), to_term(out.value, "bool") == self.flag.t)
+        if not isinstance(out.value, Sym):
+            return False
+        return to_term(out.value, "bool") == self.flag.t
 
     posts = [("reads_is_async_of_the_first_arguments_environment", p_flag)]
 
     def concretize(self, model, pre, out):
-        return {"dispatch": "is_async"}
+        return {"dispatch": "is_async", "example": self.example}
 
     def replay(self, w):
         return native_dispatch(w)
+
+
+def selector_tasks():
+    ts = []
+    for kind in (0, 1):
+        sels = live_selectors(kind)
+        if not sels:
+            ts.append(IsAsyncSelector(kind))
+        for i, (sel, example) in enumerate(sels):
+            ts.append(IsAsyncSelector(kind, sel, example, i))
+    return ts
 
 
 def native_dispatch(w=None):
@@ -1916,7 +1947,7 @@ TASKS = (
     + [VariantBounded(n) for n in VARIANT_NAMES]
     + [FnTask(PROP, "C09.variant.registry", variant_table, "table", lambda w: (True, "registry differs"))]
     + [DispatchWrapper(n, k) for n in (True, False) for k in (1, 3)]
-    + [IsAsyncSelector(0), IsAsyncSelector(1), FnTask(PROP, "C09.dispatch.registry", dispatch_table, "table", native_dispatch), AutoAwait()]
+    + selector_tasks() + [FnTask(PROP, "C09.dispatch.registry", dispatch_table, "table", native_dispatch), AutoAwait()]
     + [entry_task(n) for n in ENTRY]
     + [RenderParity()]
 )
